@@ -95,6 +95,10 @@ def main():
                 out['traceback'] = tb[0][-1500:]
             if 'NotDeterministic' in out['message']:
                 out['status'] = 'ERROR'
+            if 'HarnessAssumption' in out['message'] or 'HarnessAssumption' in out.get('traceback', ''):
+                # the harness cannot hook into this source: inconclusive, never a violation
+                out['status'] = 'UNKNOWN'
+                out['message'] = 'harness assumption not met: ' + out['message']
             if 'args' in captured:
                 try:
                     out['args'] = jsonx.enc(captured['args'])
@@ -114,7 +118,7 @@ def main():
             out['status'] = 'ERROR'
             out['message'] = 'no verdict: ' + out['message']
     except BaseException as e:  # noqa
-        out['status'] = 'ERROR'
+        out['status'] = 'UNKNOWN' if type(e).__name__ == 'HarnessAssumption' else 'ERROR'
         out['message'] = (out.get('message') or '') + ' ' + repr(e) + ' ' + traceback.format_exc()[-1500:]
     out['cpu_s'] = round(time.process_time(), 2)
     out['wall_s'] = round(time.time() - t0, 2)
